@@ -3,8 +3,8 @@
 
   Safety (prefix / EOF honesty / errors surface) is proved for all schedules of the two-endpoint
   system of Model/Pair.lean, whose wire may drop, delay, reorder *and duplicate* arbitrarily.
-  Liveness is false on the faithful model: the full statement is `C06_Live_Statement`, refuted by five
-  witnesses (F-C06-1 … -5); four of them complete on the model with their repair flag set, F-C06-4 (no
+  Liveness is false on the faithful model: the full statement is `C06_Live_Statement`, refuted by six
+  witnesses (F-C06-1 … -6); five of them complete on the model with their repair flag set, F-C06-4 (no
   zero-window probe) has no small repair.
 -/
 import TvNetTcp.Proofs.PairStep
@@ -341,6 +341,49 @@ theorem witness_F_C06_4 :
     exact absurd (h witness_staleWindow) (by decide)
   · intro h
     exact absurd (h witness_staleWindow_repaired) (by decide)
+
+def witness_lostLastAck : List Op :=
+    [.listen 1 0 srv, .connect 0 0 0 srv, .egress, .deliver 0, .egress, .deliver 1, .cpoll 0 0,
+    .egress, .deliver 2, .accept 0 1, .write 0 [1, 2, 3], .egress, .deliver 3, .egress, .deliver 4,
+    .shutdown 0, .egress, .deliver 5, .egress, .deliver 6, .shutdown 1, .egress, .deliver 7, .egress,
+    .drop 8, .egress, .egress, .deliver 9, .egress, .egress, .egress, .deliver 10, .egress, .egress,
+    .egress, .deliver 11, .egress, .egress, .egress, .deliver 12, .egress, .egress, .egress,
+    .deliver 13, .egress, .egress, .egress, .egress, .egress, .egress, .egress, .egress, .egress,
+    .egress, .read 1 8]
+
+def fixed_lostLastAck : List Op :=
+    [.listen 1 0 srv, .connect 0 0 0 srv, .egress, .deliver 0, .egress, .deliver 1, .cpoll 0 0,
+    .egress, .deliver 2, .accept 0 1, .write 0 [1, 2, 3], .egress, .deliver 3, .egress, .deliver 4,
+    .shutdown 0, .egress, .deliver 5, .egress, .deliver 6, .shutdown 1, .egress, .deliver 7, .egress,
+    .drop 8, .egress, .egress, .deliver 9, .egress, .egress, .egress, .deliver 10, .egress, .egress,
+    .egress, .deliver 11, .egress, .egress, .egress, .deliver 12, .egress, .egress, .egress,
+    .deliver 13, .egress, .egress, .egress, .egress, .egress, .egress, .egress, .egress, .egress,
+    .egress, .read 1 8]
+
+/-- The code with the five repairs that have been committed to /repo (2e36826, 721efe6, bf8d44c,
+    28e9486, d6a3586). -/
+def cfgRepaired : Cfg :=
+  { fixReack := true, fixWinUpdate := true, fixHsReset := true, fixRstAfterClose := true, fixReapOrphan := true }
+
+set_option maxRecDepth 100000 in
+/-- F-C06-6: one lost packet — the final ACK of a close. The client has sent and received FIN and
+    is `Closed`; `handle_on_connection` ignores everything in that state (there is no TIME_WAIT to
+    re-ACK a retransmitted FIN), so the server in `LastAck` retransmits its FIN until the budget is
+    gone and is aborted with `TimedOut`: its application, which had not yet read the 3 bytes sitting
+    in `recv_buf`, gets the error instead of the data (abort clears the buffer). Holds on the model
+    with all committed repairs. -/
+theorem witness_F_C06_6 : ¬ C06_Live_Statement cfgRepaired := by
+  intro h
+  exact absurd (h witness_lostLastAck) (by decide)
+
+set_option maxRecDepth 100000 in
+/-- With `fixQuietClose` (abort in `LastAck` / `Closing` enters `Closed` silently and keeps the
+    receive buffer, RFC 793) the same scenario ends with the 3 bytes read. -/
+theorem fixed_F_C06_6 :
+    Spec.c06Liveness { cfgRepaired with fixQuietClose := true }
+        (Spec.modelHistory { cfgRepaired with fixQuietClose := true } 2 fixed_lostLastAck) = none ∧
+    ((Sys.init { cfgRepaired with fixQuietClose := true } 2).run fixed_lostLastAck).2.getLast? = some [Obs.okBytes [1, 2, 3]] := by
+  refine ⟨by decide, by decide⟩
 
 set_option maxRecDepth 100000 in
 /-- With the repairs switched on the same scenarios (same application calls, same loss; packet ids
